@@ -13,7 +13,7 @@ for sid in sorted(os.listdir(root)):
     if meta.get("retired"):
         print("%-40s retired" % sid, flush=True)
         continue
-    props = [meta["breaks_property"]] + meta.get("also_run_against", [])
+    props = [meta["breaks_property"]] + ([] if os.environ.get("MATRIX_PRIMARY_ONLY") else meta.get("also_run_against", []))
     res = {}
     for prop in props:
         t0 = time.time()
@@ -22,5 +22,9 @@ for sid in sorted(os.listdir(root)):
         sigs = [l.strip()[len("signature: "):] for l in r.stdout.splitlines() if l.strip().startswith("signature:")]
         res[prop] = {"exit": r.returncode, "caught": r.returncode == 1, "signatures": sigs[:6], "wall_s": round(time.time() - t0, 1)}
         print("%-40s %-4s %s %s" % (sid, prop, "CAUGHT" if r.returncode == 1 else "exit %d" % r.returncode, sigs[:1]), flush=True)
+    if os.environ.get("MATRIX_PRIMARY_ONLY"):
+        old = meta.get("check_results", {})
+        old.update(res)
+        res = old
     meta["check_results"] = res
     json.dump(meta, open(mp, "w"), indent=1)
